@@ -127,3 +127,13 @@ func VerifC16CanonIdempotent() {
 	vCover(true, "canon computed")
 	vAssert(CanonPackageName(c) == c, "name normalisation is idempotent")
 }
+
+// VerifC10CanonVersion (C10): pypi.CanonVersion is idempotent on arbitrary bytes: a version that parses is
+// replaced by a canonical string that parses to itself; anything else is returned as it is.
+func VerifC10CanonVersion() {
+	s := vBytes("s", vParam("n"))
+	c := CanonVersion(s)
+	vObserveStr("canon", c)
+	vCover(c != s, "version canonicalised to a different string")
+	vAssert(CanonVersion(c) == c, "pypi.CanonVersion is idempotent")
+}
